@@ -9,7 +9,7 @@ Exps(nimp, ft, table, mem, glob) ==
 Mk(ntypes, nimp, ft, table, mem, glob, data, dc, emode) ==
   [ntypes |-> ntypes, imptypes |-> [k \in 1..nimp |-> 0], ftypes |-> ft, ncode |-> Len(ft), table |-> table, mem |-> mem, glob |-> glob,
    data |-> data, datacount |-> dc, elem |-> [mode |-> emode, tbl |-> 0, fs |-> IF emode = "none" THEN <<>> ELSE <<nimp>>],
-   exports |-> Exps(nimp, ft, table, mem, glob), start |-> -1, body |-> B(1, "none", 0, 0), valid |-> TRUE]
+   exports |-> Exps(nimp, ft, table, mem, glob), start |-> -1, layout |-> [k |-> "none", sec |-> 0], body |-> B(1, "none", 0, 0), valid |-> TRUE]
 (* everything present *)
 Full == {Mk(2, nimp, ft, TRUE, TRUE, "mut", "passive", 1, "passive") : nimp \in {0, 1}, ft \in {<<0, 1>>, <<1, 0, 0>>, <<0>>, <<0, 0, 1>>}}
 (* nothing but functions *)
